@@ -22,6 +22,12 @@ GENERIC_PATTERNS = [
     "import {{m}}", "{{a}} and {{b}}", "lambda: {{x}}", "({{a}}, {{b}})", "not {{x}}",
 ]
 BASES = [
+    # multi-byte characters before a node and further ones right behind its start and its end (a byte/character conversion that looks at a window of the line)
+    'x = ["\u65e5\u672c\u8a9e", -f("\u00e9")]\ny = ["\u00e4\u00f6\u00fc", not f("\u00e9"), f("\u00fc")]\nr = \'\U0001f600\U0001f600\'; v = -f(\'\u00e9\u00e9\')+f(\'\u00e9\')\n',
+    # decorated async functions, alone and in a class
+    "@decorator\nasync def first(a):\n    return a\n\n\nclass K:\n    @other.deco(1)\n    @more\n    async def m(self):\n        return 1\n\n    @ spaced\n    async def n(self): pass\n",
+    # the first statement has its match deep inside, a later statement has one on top
+    "x + 1 if c else y\nz + 1\nw = (a + 1) * 2\n",
     # a decorator as the very first character of the file, spaced and parenthesised decorators, an `@` that is only a comment
     "@decorator\ndef first(a):\n    return a\n\n\n@ spaced.deco\nclass C:\n    pass\n\n\n@(paren_deco)\nasync def g():\n    pass  #@\n\n\ndef h(): pass  #@\n",
     # several multi-byte tokens on one line, before and at the matched position
